@@ -199,17 +199,36 @@ theorem sanList_bulk (c : Cmd) : Val.sanList (c.map Val.bulk) = c.map Val.bulk :
   | nil => simp [Val.sanList]
   | cons a as ih => simp [Val.sanList, Val.san, ih]
 
-/-- the machine can decode a command frame: two stack frames -/
-def CmdOK (env : Env) (_c : Cmd) : Prop := 2 ≤ env.depth
+/-- the command's name (first argument) has no non-white-space character -/
+def nameWs : Cmd → Bool
+  | n :: _ => isWsName n
+  | [] => false
 
-instance (env : Env) (c : Cmd) : Decidable (CmdOK env c) := by unfold CmdOK; infer_instance
+/-- a command the handler can take: the decoder has the two stack frames a command frame needs, and
+    — unless `check_acl_permission` is guarded (`nameGuard`, after the fix) — its name is not empty
+    / white space only -/
+def CmdOK (cfg : Config) (c : Cmd) : Prop := 2 ≤ cfg.env.depth ∧ (cfg.nameGuard = true ∨ nameWs c = false)
+
+instance (cfg : Config) (c : Cmd) : Decidable (CmdOK cfg c) := by unfold CmdOK; infer_instance
+
+theorem namePanics_cmdFrame (cfg : Config) (inTx : Bool) (c : Cmd) (h : CmdOK cfg c) :
+    namePanics cfg.nameGuard inTx (cmdFrame c) = false := by
+  unfold namePanics
+  cases h.2 with
+  | inl hg => simp [hg]
+  | inr hw =>
+    cases c with
+    | nil => simp [cmdFrame]
+    | cons n rest =>
+      simp only [nameWs] at hw
+      simp [cmdFrame, hw]
 
 /-- a complete command frame at the front of the buffer is decoded as that frame -/
-theorem parse1_frame (env : Env) (c : Cmd) (rest : Bytes) (hok : CmdOK env c)
+theorem parse1_frame (env : Env) (c : Cmd) (rest : Bytes) (hok : 2 ≤ env.depth)
     (hs : Small (encCmd c ++ rest)) :
     (parse1 env (encCmd c ++ rest)).out = .ok (cmdFrame c) (encCmd c).length := by
   have h := parseD_encode codec1 codec1_good maxNesting codec1_fixed env.mem env.depth 0 (cmdFrame c)
-    (by have := depthList_bulk c; simp only [cmdFrame, Val.depth]; unfold CmdOK at hok; omega)
+    (by have := depthList_bulk c; simp only [cmdFrame, Val.depth]; omega)
     (by simp [cmdFrame, Val.arr, arrList_bulk, maxNesting])
     (by simp [cmdFrame, Val.wf, wfList_bulk]) rest hs
   have hsan : (cmdFrame c).san = cmdFrame c := by simp [cmdFrame, Val.san, sanList_bulk]
@@ -217,7 +236,7 @@ theorem parse1_frame (env : Env) (c : Cmd) (rest : Bytes) (hok : CmdOK env c)
   exact h
 
 /-- a proper prefix of a command frame: the decoder waits -/
-theorem parse1_partial (env : Env) (c : Cmd) (buf ext : Bytes) (hok : CmdOK env c)
+theorem parse1_partial (env : Env) (c : Cmd) (buf ext : Bytes) (hok : 2 ≤ env.depth)
     (h : buf ++ ext = encCmd c) (hlt : buf.length < (encCmd c).length) (hs : Small (encCmd c)) :
     (parse1 env buf).out.isIncomplete = true := by
   cases hd : (parse1 env buf).out.isIncomplete with
@@ -328,7 +347,7 @@ theorem append_split' (a b c d : Bytes) (h : a ++ b = c ++ d) (hl : a.length < c
 theorem seqLoop_wf (cfg : Config) (h14 : cfg.headerLen = 14) (hcodec : cfg.codec = codec1) (hdepth : 1 ≤ cfg.env.depth) :
     ∀ (cmds : List Cmd) (fuel : Nat) (buf rest : Bytes) (inTx : Bool),
       buf ++ rest = stream cmds → buf.length < fuel → Small (stream cmds) →
-      (∀ c ∈ cmds, CmdOK cfg.env c) →
+      (∀ c ∈ cmds, CmdOK cfg c) →
       ∃ (done left : List Cmd) (buf' : Bytes) (tx' : Bool),
         cmds = done ++ left ∧ buf = stream done ++ buf' ∧ buf' ++ rest = stream left ∧
         (∀ c cs, left = c :: cs → buf'.length < (encCmd c).length) ∧
@@ -377,7 +396,7 @@ theorem seqLoop_wf (cfg : Config) (h14 : cfg.headerLen = 14) (hcodec : cfg.codec
           simp at hs this ⊢
           omega
         have hp : (parseG codec1 cfg.env (encCmd c ++ t)).out = .ok (cmdFrame c) (encCmd c).length :=
-          parse1_frame cfg.env c t hokc hsb
+          parse1_frame cfg.env c t hokc.1 hsb
         have hk1 : 1 ≤ (encCmd c).length := by
           rw [encCmd_eq]; simp
         have hscs : Small (stream cs) := by
@@ -391,7 +410,8 @@ theorem seqLoop_wf (cfg : Config) (h14 : cfg.headerLen = 14) (hcodec : cfg.codec
           rw [hcodec, hfp]
           simp only []
           rw [hbt, hp]
-          simp only [List.drop_append_of_le_length (Nat.le_refl _), List.drop_length,
+          simp only [namePanics_cmdFrame cfg inTx c hokc, Bool.false_eq_true, if_false,
+            List.drop_append_of_le_length (Nat.le_refl _), List.drop_length,
             List.nil_append]
           rw [e5]
           simp [execAll]
@@ -399,7 +419,7 @@ theorem seqLoop_wf (cfg : Config) (h14 : cfg.headerLen = 14) (hcodec : cfg.codec
         have hlt : buf.length < (encCmd c).length := by omega
         obtain ⟨ext, hext⟩ := append_split' buf rest (encCmd c) (stream cs) h hlt
         have hinc : (parseG codec1 cfg.env buf).out.isIncomplete = true :=
-          parse1_partial cfg.env c buf ext hokc hext hlt hsc
+          parse1_partial cfg.env c buf ext hokc.1 hext hlt hsc
         refine ⟨[], c :: cs, buf, inTx, rfl, by simp [stream], by rw [stream_cons]; exact h, ?_, ?_⟩
         · intro c' cs' hh
           cases hh
@@ -430,7 +450,7 @@ theorem stream_len_le (a b : List Cmd) : (stream b).length ≤ (stream (a ++ b))
 theorem onRead_wf (cfg : Config) (h14 : cfg.headerLen = 14) (hcodec : cfg.codec = codec1) (hdepth : 1 ≤ cfg.env.depth)
     (cmds : List Cmd) (b0 chunk rest : Bytes) (tx : Bool)
     (h : (b0 ++ chunk) ++ rest = stream cmds) (hs : Small (stream cmds))
-    (hmx0 : b0.length + chunk.length ≤ cfg.maxBuffer) (hok : ∀ c ∈ cmds, CmdOK cfg.env c) :
+    (hmx0 : b0.length + chunk.length ≤ cfg.maxBuffer) (hok : ∀ c ∈ cmds, CmdOK cfg c) :
     ∃ (done left : List Cmd) (buf' : Bytes) (tx' : Bool),
       cmds = done ++ left ∧ buf' ++ rest = stream left ∧
       (∀ c cs, left = c :: cs → buf'.length < (encCmd c).length) ∧
@@ -465,7 +485,7 @@ theorem onRead_wf (cfg : Config) (h14 : cfg.headerLen = 14) (hcodec : cfg.codec 
 theorem reads_wf (cfg : Config) (h14 : cfg.headerLen = 14) (hcodec : cfg.codec = codec1) (hdepth : 1 ≤ cfg.env.depth) :
     ∀ (chunks : List Bytes) (cmds : List Cmd) (b0 : Bytes) (tx : Bool) (acts : List Action),
       b0 ++ chunks.flatten = stream cmds → Small (stream cmds) → (stream cmds).length ≤ cfg.maxBuffer →
-      (∀ c ∈ cmds, CmdOK cfg.env c) →
+      (∀ c ∈ cmds, CmdOK cfg c) →
       (∀ c cs, cmds = c :: cs → b0.length < (encCmd c).length) →
       (chunks.foldl (fun (acc : St × List Action) c =>
           let (s', a) := onRead cfg acc.1 c; (s', acc.2 ++ a)) (⟨b0, tx, false⟩, acts)).2
@@ -503,6 +523,50 @@ theorem reads_wf (cfg : Config) (h14 : cfg.headerLen = 14) (hcodec : cfg.codec =
     rw [e1]
     simp [execAll]
 
+/-- every `read()` of every segmentation of a PREFIX of the stream (the client has sent only part
+    of the pipeline so far — cut at any byte — and `rest` is still to come): exactly the commands
+    that are complete in what has arrived have been executed, the buffer holds a proper prefix of
+    the next frame -/
+theorem reads_wf_prefix (cfg : Config) (h14 : cfg.headerLen = 14) (hcodec : cfg.codec = codec1) (hdepth : 1 ≤ cfg.env.depth) :
+    ∀ (chunks : List Bytes) (cmds : List Cmd) (b0 rest : Bytes) (tx : Bool) (acts : List Action),
+      (b0 ++ chunks.flatten) ++ rest = stream cmds → Small (stream cmds) → (stream cmds).length ≤ cfg.maxBuffer →
+      (∀ c ∈ cmds, CmdOK cfg c) →
+      (∀ c cs, cmds = c :: cs → b0.length < (encCmd c).length) →
+      ∃ (done left : List Cmd) (buf' : Bytes) (tx' : Bool),
+        cmds = done ++ left ∧ buf' ++ rest = stream left ∧
+        (∀ c cs, left = c :: cs → buf'.length < (encCmd c).length) ∧
+        chunks.foldl (fun (acc : St × List Action) c =>
+          let (s', a) := onRead cfg acc.1 c; (s', acc.2 ++ a)) (⟨b0, tx, false⟩, acts)
+          = (⟨buf', tx', false⟩, acts ++ execAll done) := by
+  intro chunks
+  induction chunks with
+  | nil =>
+    intro cmds b0 rest tx acts h _ _ _ hb
+    exact ⟨[], cmds, b0, tx, rfl, by simpa using h, hb, by simp [execAll]⟩
+  | cons ch chunks ih =>
+    intro cmds b0 rest tx acts h hs hmax hok _
+    have h' : (b0 ++ ch) ++ (chunks.flatten ++ rest) = stream cmds := by
+      simpa [List.append_assoc] using h
+    obtain ⟨done, left, buf', tx', e1, e3, e4, e5⟩ :=
+      onRead_wf cfg h14 hcodec hdepth cmds b0 ch (chunks.flatten ++ rest) tx h' hs
+        (by have := congrArg List.length h'; simp at this; omega) hok
+    simp only [List.foldl_cons, e5]
+    have hsl : Small (stream left) := by
+      have := stream_len_le done left
+      unfold Small at *
+      rw [← e1] at this
+      omega
+    have hml : (stream left).length ≤ cfg.maxBuffer := by
+      have := stream_len_le done left
+      rw [← e1] at this
+      omega
+    obtain ⟨done2, left2, buf2, tx2, f1, f3, f4, f5⟩ :=
+      ih left buf' rest tx' (acts ++ execAll done) (by simpa [List.append_assoc] using e3) hsl hml
+        (fun c hc => hok c (by rw [e1]; simp [hc])) e4
+    refine ⟨done ++ done2, left2, buf2, tx2, by rw [e1, f1]; simp, f3, f4, ?_⟩
+    rw [f5]
+    simp [execAll]
+
 theorem splitReads_flatten (n : Nat) : ∀ (f : Nat) (seg : Bytes), (splitReads n f seg).flatten = seg := by
   intro f
   induction f with
@@ -526,7 +590,7 @@ theorem flatMap_splitReads_flatten (n : Nat) (segs : List Bytes) :
 theorem run_wf (cfg : Config) (h14 : cfg.headerLen = 14) (hcodec : cfg.codec = codec1) (hdepth : 1 ≤ cfg.env.depth)
     (cmds : List Cmd) (segs : List Bytes) (h : segs.flatten = stream cmds)
     (hs : Small (stream cmds)) (hmax : (stream cmds).length ≤ cfg.maxBuffer)
-    (hok : ∀ c ∈ cmds, CmdOK cfg.env c) :
+    (hok : ∀ c ∈ cmds, CmdOK cfg c) :
     run cfg segs = execAll cmds := by
   unfold run feedSegs St.init
   have := reads_wf cfg h14 hcodec hdepth (segs.flatMap (fun s => splitReads cfg.readSize s.length s)) cmds [] false []
@@ -562,7 +626,7 @@ theorem reads_wf_frames (cfg : Config) (h14 : cfg.headerLen = 14) (hcodec : cfg.
       b0 ++ chunks.flatten = stream cmds → Small (stream cmds) →
       (∀ c ∈ cmds, (encCmd c).length + cfg.readSize ≤ cfg.maxBuffer + 1) →
       (∀ ch ∈ chunks, ch.length ≤ cfg.readSize) →
-      (∀ c ∈ cmds, CmdOK cfg.env c) →
+      (∀ c ∈ cmds, CmdOK cfg c) →
       (∀ c cs, cmds = c :: cs → b0.length < (encCmd c).length) →
       (chunks.foldl (fun (acc : St × List Action) c =>
           let (s', a) := onRead cfg acc.1 c; (s', acc.2 ++ a)) (⟨b0, tx, false⟩, acts)).2
@@ -612,7 +676,7 @@ theorem run_wf_frames (cfg : Config) (h14 : cfg.headerLen = 14) (hcodec : cfg.co
     (hrs : 1 ≤ cfg.readSize)
     (cmds : List Cmd) (segs : List Bytes) (h : segs.flatten = stream cmds)
     (hs : Small (stream cmds)) (hfr : ∀ c ∈ cmds, (encCmd c).length + cfg.readSize ≤ cfg.maxBuffer + 1)
-    (hok : ∀ c ∈ cmds, CmdOK cfg.env c) :
+    (hok : ∀ c ∈ cmds, CmdOK cfg c) :
     run cfg segs = execAll cmds := by
   unfold run feedSegs St.init
   have hch : ∀ ch ∈ segs.flatMap (fun s => splitReads cfg.readSize s.length s), ch.length ≤ cfg.readSize := by
@@ -659,7 +723,7 @@ def SeqJunk (cfg : Config) (cmds : List Cmd) (junk : Bytes) (fuel : Nat) (buf re
 theorem seqLoop_junk (cfg : Config) (h14 : cfg.headerLen = 14) (hcodec : cfg.codec = codec1) (junk : Bytes) :
     ∀ (cmds : List Cmd) (fuel : Nat) (buf rest : Bytes) (inTx : Bool),
       buf ++ rest = stream cmds ++ junk → buf.length < fuel → Small (stream cmds ++ junk) →
-      (∀ c ∈ cmds, CmdOK cfg.env c) → SeqJunk cfg cmds junk fuel buf rest inTx := by
+      (∀ c ∈ cmds, CmdOK cfg c) → SeqJunk cfg cmds junk fuel buf rest inTx := by
   intro cmds
   induction cmds with
   | nil =>
@@ -688,7 +752,7 @@ theorem seqLoop_junk (cfg : Config) (h14 : cfg.headerLen = 14) (hcodec : cfg.cod
           simp at hs this ⊢
           omega
         have hp : (parseG codec1 cfg.env (encCmd c ++ t)).out = .ok (cmdFrame c) (encCmd c).length :=
-          parse1_frame cfg.env c t hokc hsb
+          parse1_frame cfg.env c t hokc.1 hsb
         have hscs : Small (stream cs ++ junk) := by
           unfold Small at *; simp at hs ⊢; omega
         obtain ⟨done, left, e1, e2⟩ :=
@@ -703,7 +767,8 @@ theorem seqLoop_junk (cfg : Config) (h14 : cfg.headerLen = 14) (hcodec : cfg.cod
           rw [hcodec, hfp]
           simp only []
           rw [hbt, hp]
-          simp only [List.drop_append_of_le_length (Nat.le_refl _), List.drop_length, List.nil_append]
+          simp only [namePanics_cmdFrame cfg inTx c hokc, Bool.false_eq_true, if_false,
+            List.drop_append_of_le_length (Nat.le_refl _), List.drop_length, List.nil_append]
         refine ⟨c :: done, left, by simp [e1], ?_⟩
         cases e2 with
         | inl e2 =>
@@ -721,7 +786,7 @@ theorem seqLoop_junk (cfg : Config) (h14 : cfg.headerLen = 14) (hcodec : cfg.cod
       · have hlt : buf.length < (encCmd c).length := by omega
         obtain ⟨ext, hext⟩ := append_split' buf rest (encCmd c) (stream cs ++ junk) h hlt
         have hinc : (parseG codec1 cfg.env buf).out.isIncomplete = true :=
-          parse1_partial cfg.env c buf ext hokc hext hlt hsc
+          parse1_partial cfg.env c buf ext hokc.1 hext hlt hsc
         refine ⟨[], c :: cs, rfl, Or.inr ⟨c, cs, buf, inTx, rfl, by rw [stream_cons, List.append_assoc]; exact h, hlt, ?_⟩⟩
         unfold seqLoop
         rw [hcodec, h14]
@@ -754,7 +819,7 @@ theorem reads_append (cfg : Config) : ∀ (chunks : List Bytes) (st : St) (acts 
 theorem reads_junk (cfg : Config) (h14 : cfg.headerLen = 14) (hcodec : cfg.codec = codec1) (junk : Bytes) :
     ∀ (chunks : List Bytes) (cmds : List Cmd) (b0 : Bytes) (tx : Bool) (acts : List Action),
       b0 ++ chunks.flatten = stream cmds ++ junk → Small (stream cmds ++ junk) →
-      (stream cmds ++ junk).length ≤ cfg.maxBuffer → (∀ c ∈ cmds, CmdOK cfg.env c) →
+      (stream cmds ++ junk).length ≤ cfg.maxBuffer → (∀ c ∈ cmds, CmdOK cfg c) →
       (∀ c cs, cmds = c :: cs → b0.length < (encCmd c).length) →
       ∃ tail, (chunks.foldl (fun (acc : St × List Action) c =>
           let (s', a) := onRead cfg acc.1 c; (s', acc.2 ++ a)) (⟨b0, tx, false⟩, acts)).2
@@ -843,7 +908,7 @@ theorem reads_junk (cfg : Config) (h14 : cfg.headerLen = 14) (hcodec : cfg.codec
 theorem run_junk (cfg : Config) (h14 : cfg.headerLen = 14) (hcodec : cfg.codec = codec1)
     (cmds : List Cmd) (junk : Bytes) (segs : List Bytes) (h : segs.flatten = stream cmds ++ junk)
     (hs : Small (stream cmds ++ junk)) (hmax : (stream cmds ++ junk).length ≤ cfg.maxBuffer)
-    (hok : ∀ c ∈ cmds, CmdOK cfg.env c) :
+    (hok : ∀ c ∈ cmds, CmdOK cfg c) :
     ∃ tail, run cfg segs = execAll cmds ++ tail := by
   unfold run feedSegs St.init
   obtain ⟨tail, ht⟩ := reads_junk cfg h14 hcodec junk (segs.flatMap (fun s => splitReads cfg.readSize s.length s)) cmds [] false []
@@ -1038,7 +1103,7 @@ theorem fastPath_no_crash (h : Nat) (inTx : Bool) (buf : Bytes) : fastPath h tru
       | needMore => simp
 
 /-- the sequential loop of the repaired code never panics -/
-theorem seqLoop_no_crash (cfg : Config) (hck : cfg.checked = true) (hcodec : cfg.codec = codec1)
+theorem seqLoop_no_crash (cfg : Config) (hck : cfg.checked = true) (hng : cfg.nameGuard = true) (hcodec : cfg.codec = codec1)
     (hd : maxNesting + 1 ≤ cfg.env.depth) :
     ∀ (f : Nat) (buf : Bytes) (inTx : Bool), Small buf →
       hasCrash (seqLoop cfg f buf inTx).1 = false ∧ (seqLoop cfg f buf inTx).2.2.2 = false := by
@@ -1068,7 +1133,8 @@ theorem seqLoop_no_crash (cfg : Config) (hck : cfg.checked = true) (hcodec : cfg
       cases hout : (parseG codec1 cfg.env buf).out with
       | ok v k =>
         have := ih (buf.drop k) (txAfter inTx v) (hs.drop k)
-        simp only []
+        have hnp : namePanics cfg.nameGuard inTx v = false := by simp [namePanics, hng]
+        simp only [hnp, Bool.false_eq_true, if_false]
         exact ⟨by simpa [hasCrash] using this.1, this.2⟩
       | incomplete _ => simp [hasCrash]
       | error _ => simp [hasCrash]
@@ -1077,7 +1143,7 @@ theorem seqLoop_no_crash (cfg : Config) (hck : cfg.checked = true) (hcodec : cfg
         rw [hout] at hnc
         simp [Outcome.isCrash] at hnc
 
-theorem onRead_no_crash (cfg : Config) (hck : cfg.checked = true) (hcodec : cfg.codec = codec1)
+theorem onRead_no_crash (cfg : Config) (hck : cfg.checked = true) (hng : cfg.nameGuard = true) (hcodec : cfg.codec = codec1)
     (hd : maxNesting + 1 ≤ cfg.env.depth) (hmax : cfg.maxBuffer < 72057594037927936) (st : St) (chunk : Bytes) :
     hasCrash (onRead cfg st chunk).2 = false := by
   unfold onRead
@@ -1107,11 +1173,11 @@ theorem onRead_no_crash (cfg : Config) (hck : cfg.checked = true) (hcodec : cfg.
       rw [e1]
       simp only []
       have hsb : Small b := by unfold Small at *; omega
-      have := seqLoop_no_crash cfg hck hcodec hd ((st.buf ++ chunk).length + 1) b st.inTx hsb
+      have := seqLoop_no_crash cfg hck hng hcodec hd ((st.buf ++ chunk).length + 1) b st.inTx hsb
       rw [hasCrash_append, e2, this.1]
       rfl
 
-theorem reads_no_crash (cfg : Config) (hck : cfg.checked = true) (hcodec : cfg.codec = codec1)
+theorem reads_no_crash (cfg : Config) (hck : cfg.checked = true) (hng : cfg.nameGuard = true) (hcodec : cfg.codec = codec1)
     (hd : maxNesting + 1 ≤ cfg.env.depth) (hmax : cfg.maxBuffer < 72057594037927936) :
     ∀ (chunks : List Bytes) (st : St) (acts : List Action), hasCrash acts = false →
       hasCrash (chunks.foldl (fun (acc : St × List Action) c =>
@@ -1123,15 +1189,15 @@ theorem reads_no_crash (cfg : Config) (hck : cfg.checked = true) (hcodec : cfg.c
     intro st acts h
     simp only [List.foldl_cons]
     apply ih
-    rw [hasCrash_append, h, onRead_no_crash cfg hck hcodec hd hmax st c]
+    rw [hasCrash_append, h, onRead_no_crash cfg hck hng hcodec hd hmax st c]
     rfl
 
 /-- NO CRASH of the connection, whatever bytes arrive in whatever segments -/
-theorem run_no_crash (cfg : Config) (hck : cfg.checked = true) (hcodec : cfg.codec = codec1)
+theorem run_no_crash (cfg : Config) (hck : cfg.checked = true) (hng : cfg.nameGuard = true) (hcodec : cfg.codec = codec1)
     (hd : maxNesting + 1 ≤ cfg.env.depth) (hmax : cfg.maxBuffer < 72057594037927936) (segs : List Bytes) :
     hasCrash (run cfg segs) = false := by
   unfold run feedSegs
-  exact reads_no_crash cfg hck hcodec hd hmax _ _ _ rfl
+  exact reads_no_crash cfg hck hng hcodec hd hmax _ _ _ rfl
 
 /-! ### the shared buffer pool: every connection starts from empty buffers -/
 
